@@ -1,7 +1,9 @@
 import NpsVerif.Gen.Bridge.calc_lengths
 import NpsVerif.Gen.Bridge.pos_col_slice
+set_option linter.unusedVariables false
 namespace Gen.Bridge
-/-- K3 (slice branch): any non-zero step, row lengths non-negative -/
+/-- K3 (slice branch): any non-zero step, row lengths non-negative.  The calls of K1 / K2 inside are
+rewritten with their own bridges; what remains is the start clamp of the negative branch. -/
 theorem col_slice_slice_bridge (len start0 cstep : Int) (a b : Option Int) (k : Option Int) (hl : 0 ≤ len)
     (hk : k ≠ some 0) :
     Cur.col_slice_slice len start0 cstep a b k = Ref.col_slice_slice len start0 cstep a b k := by
@@ -10,27 +12,22 @@ theorem col_slice_slice_bridge (len start0 cstep : Int) (a b : Option Int) (k : 
     | (unfold Cur.col_slice_slice Ref.col_slice_slice
        cases k with
        | none =>
-         simp only []
-         first
-           | rfl
-           | (rw [pos_col_slice_bridge len start0 cstep a b 1 hl (by omega)]; done)
-           | (cases a <;> cases b <;> simp only [] <;> bridge_arith)
+         have hd : decide ((1 : Int) > 0) = true := by decide
+         have hp := pos_col_slice_bridge len start0 cstep a b 1 hl (by omega)
+         simp only [hd, if_true, hp]
        | some s =>
-         simp only []
          by_cases hs : 0 < s
-         · first
-             | (simp only [hs, decide_true, if_true]; exact pos_col_slice_bridge len start0 cstep a b s hl hs)
-             | (cases a <;> cases b <;> simp only [] <;> bridge_arith)
+         · have hd : decide (s > 0) = true := decide_eq_true hs
+           have hp := pos_col_slice_bridge len start0 cstep a b s hl hs
+           simp only [hd, if_true, hp]
          · have hs' : s < 0 := by
              have : s ≠ 0 := fun h => hk (by rw [h])
              omega
-           first
-             | (simp only [hs, decide_false, Bool.false_eq_true, if_false]
-                rw [calc_lengths_bridge len a b s hl hs']; done)
-             | (simp only [hs, decide_false, Bool.false_eq_true, if_false]
-                rw [calc_lengths_bridge len a b s hl hs']
-                cases a <;> cases b <;> simp only [] <;> bridge_arith)
-             | (cases a <;> cases b <;> simp only [] <;> bridge_arith))
+           have hd : decide (s > 0) = false := decide_eq_false hs
+           have hc := calc_lengths_bridge len a b s hl hs'
+           (simp only [hd, Bool.false_eq_true, if_false, hc]) <;> first
+             | rfl
+             | (cases a <;> simp only [] <;> bridge_arith))
 
 theorem col_slice_slice_pre_bridge (len start0 cstep : Int) (a b : Option Int) (k : Option Int) :
     Cur.col_slice_slice_pre len start0 cstep a b k = Ref.col_slice_slice_pre len start0 cstep a b k := by
